@@ -16,6 +16,7 @@ import html.parser
 import itertools
 import json
 import os
+import random
 import re
 import time
 
@@ -217,8 +218,13 @@ def self_targets(f):
     return out
 
 
-def build_components(lib):
+RESEED_CONST = 20260928
+
+
+def build_components(lib, reseed=None):
     """Create and register one Component class per library entry. Returns (names, classes).
+    reseed: {component index: "gcd" | "before"} - user code of that component calls random.seed(<constant>) in
+    get_context_data / on_render_before (a "pick of the day" component); render ids must not depend on that.
     A Python-rendered component `P(k, "self-...")` is rendered by the SAME Component instance (self.render(kwargs=...)
     from get_context_data / on_render_before): the class then carries the template of entry k as a variant of its own."""
     from django_components import Component, registry
@@ -239,9 +245,14 @@ def build_components(lib):
             parts.append(text if len(variants) == 1 else "{%% if c14v == %d %%}%s{%% endif %%}" % (v, text))
             info[v] = ctx["vars"]
 
-        def gcd(self, variant=None, _i=i, _info=info, **kw):
+        rs = (reseed or {}).get(i)
+
+        def gcd(self, variant=None, _i=i, _info=info, _rs=rs, **kw):
             v = _i if variant is None else variant
             e = _log(self)
+            if _rs == "gcd":
+                random.seed(RESEED_CONST)
+                random.choice("abcdef")
             d = {"c14v": v, "c14e": e}
             for var, k, via in _info[v]:
                 if via in ("lazy", "lazy-deps"):
@@ -255,9 +266,12 @@ def build_components(lib):
             d["id"] = e[4] = self.id          # read AFTER the nested renders of this instance returned
             return d
         attrs = {"template": "".join(parts), "get_context_data": gcd, "__module__": "verif_c14_%d" % _uid[0]}
-        if any(via in ("before", "self-before") for vs in info.values() for _v, _k, via in vs):
-            def orb(self, context, template, _info=info):
+        if rs == "before" or any(via in ("before", "self-before") for vs in info.values() for _v, _k, via in vs):
+            def orb(self, context, template, _info=info, _rs=rs):
                 hooked = False
+                if _rs == "before":
+                    random.seed(RESEED_CONST)
+                    random.choice("abcdef")
                 for var, k, via in _info[context["c14v"]]:
                     if via == "before":
                         context[var] = classes[k].render(render_dependencies=False)
@@ -312,13 +326,14 @@ def _on_alarm(*a):
     raise RenderTimeout()
 
 
-def render_impl(lib, page, mode, api, limit=60):
-    """Returns (html or None, exception text or None, log, sizes of the two global tables afterwards)."""
+def render_impl(lib, page, mode, api, limit=60, reseed=None):
+    """Returns (html or None, exception text or None, log, sizes of the two global tables afterwards).
+    With `reseed` the page is rendered twice (the observed render is the second one: all templates are compiled)."""
     import signal
     old_handler = signal.signal(signal.SIGALRM, _on_alarm)
     signal.alarm(limit)
     try:
-        return _render_impl(lib, page, mode, api)
+        return _render_impl(lib, page, mode, api, reseed)
     except RenderTimeout:
         return None, "no result after %d s" % limit, list(LOG), None
     finally:
@@ -326,12 +341,12 @@ def render_impl(lib, page, mode, api, limit=60):
         signal.signal(signal.SIGALRM, old_handler)
 
 
-def _render_impl(lib, page, mode, api):
+def _render_impl(lib, page, mode, api, reseed=None):
     import djsetup
     import django_components.perfutil.component as Pm
     from django.template import Context, Template
     ensure_dyn()
-    names, classes = build_components(lib)
+    names, classes = build_components(lib, reseed)
     del LOG[:]
     try:
         with djsetup.components_settings(context_behavior=mode):
@@ -346,7 +361,11 @@ def _render_impl(lib, page, mode, api):
                     src = src_forest(page, names, ctx)
                     data = {v: (lambda k=k, via=via: classes[k].render(render_dependencies=(via == "lazy-deps")))
                             for v, k, via in ctx["vars"]}
-                    out = Template(src).render(Context(data))
+                    tpl = Template(src)
+                    if reseed is not None:
+                        tpl.render(Context(data))
+                        del LOG[:]
+                    out = tpl.render(Context(data))
                 return str(out), None, list(LOG), (len(Pm.component_renderer_cache), len(Pm.child_component_attrs))
             except RecursionError:
                 return None, "RecursionError", list(LOG), None
@@ -700,14 +719,16 @@ def chain_program(depth, shared):
 
 
 # ------------------------------------------------------------------------------------------------
-def run_case(chk, lib, page, mode, api, kind, terms, cases, ids="counter"):
+def run_case(chk, lib, page, mode, api, kind, terms, cases, ids="counter", reseed=None):
     if python_root_slot_in_fill(lib, page, mode, api):
         chk.extra["django_python_root_with_slot_in_fill"] = chk.extra.get("django_python_root_with_slot_in_fill", 0) + 1
-    html_out, exc, log, tabs = render_impl(lib, page, mode, api)
+    html_out, exc, log, tabs = render_impl(lib, page, mode, api, reseed=reseed)
     case = {"lib": lib, "page": page, "mode": mode, "api": api}
     if ids != "counter":
         case["ids"] = ids
-    key = (repr(lib), repr(page), mode, api, ids)
+    if reseed is not None:
+        case["reseed"] = {str(k): v for k, v in reseed.items()}
+    key = (repr(lib), repr(page), mode, api, ids, repr(reseed))
     if html_out is None:
         chk.count(key, False, kind=kind)
         chk.fail("c14-render-hangs" if exc.startswith("no result") else "c14-render-raises" if exc != "RecursionError" else "c14-recursion-limit",
@@ -828,7 +849,9 @@ def run(tier, seed):
     if thorough:
         fill_nesting_probe(chk)
     chk.assumptions = [
-        "render ids are distinct (62^6 random supply; the compared runs use a counter, a batch of every run uses the library's own generator)",
+        "render ids are distinct (62^6 random supply from os.urandom - anchored: Gen/C14.v records the entropy source of nanoid.generate and that "
+        "re-seeding Python's global RNG does not repeat ids; the compared runs use a counter, a batch of every run uses the library's own "
+        "generator, half of it with components whose user code calls random.seed(<constant>) during the render)",
         "templates use a tag subset on which djc_core_html_parser is well behaved (div/span/section/p/ul/li, no void elements, no stray end tags, no <script>)",
         "generated programs: component libraries are acyclic; slots (two names, one default) occur in component templates only - also inside "
         "fills and slot defaults there - never in the page template; which fill a slot resolves to is C01's subject (lexical resolution is assumed here and compared)",
@@ -901,19 +924,44 @@ def placeholder_differential(chk, thorough):
         chk.disagree("hand matcher of the placeholder patterns != Python re on the current source patterns", {"text": kept[i]})
 
 
+_RS_LIB = [([E("div", Cc(1)), Cc(2)], True), ([E("span")], True), ([E("p"), Cc(1)], True)]
+RESEED_CASES = [
+    # a component whose user code re-seeds Python's global RNG, twice on a page, with child components: two page-level trees
+    {"lib": _RS_LIB, "page": [Cc(0), E("section", Cc(0))], "reseed": {0: "gcd"}},
+    {"lib": _RS_LIB, "page": [R(3, Cc(0))], "reseed": {0: "before"}},
+    # ... both occurrences inside ONE render tree (colliding ids would share one slot of the global tables)
+    {"lib": [([Cc(1), E("ul", Cc(1))], True), ([E("div", Cc(2)), Cc(2)], True), ([E("li")], True)], "page": [Cc(0)], "reseed": {1: "gcd"}},
+    {"lib": [([Cc(1), E("ul", Cc(1, Cc(2)))], True), ([E("div", Cc(2)), S()], True), ([E("li")], True)], "page": [Cc(0), Cc(0)],
+     "reseed": {0: "before", 1: "before"}},
+]
+
+
 def real_ids(chk, n, terms, cases):
-    """Programs rendered with the library's own id generator (restored for this batch): full pipeline."""
+    """Programs rendered with the library's own id generator (restored for this batch): full pipeline.  In half of
+    them the user code of some components calls random.seed(<constant>) during the render (allowed: the ids must not
+    come from Python's global, seedable RNG); those pages are rendered twice, the second render is observed."""
     import django_components.util.misc as misc
     import django_components.util.nanoid as nanoid
     saved = misc.generate
+    state = random.getstate()
     misc.generate = nanoid.generate
     try:
         for c in CORPUS:
             run_case(chk, c["lib"], c["page"], "isolated", "template", "real-ids", terms, cases, ids="real")
+        for c in RESEED_CASES:
+            for mode in ("django", "isolated"):
+                run_case(chk, c["lib"], c["page"], mode, "template", "real-ids-reseed", terms, cases, ids="real", reseed=c["reseed"])
         for i, (lib, page, kind) in enumerate(gen_random(chk.rng, n)):
-            run_case(chk, lib, page, "django" if i % 2 else "isolated", "template", "real-ids", terms, cases, ids="real")
+            reseed = None
+            if i % 2 == 0:
+                reseed = {k: chk.rng.choice(["gcd", "before"]) for k in range(len(lib)) if chk.rng.random() < 0.6}
+                if chk.rng.random() < 0.5:
+                    page = page + page          # the same components once more on the page
+            run_case(chk, lib, page, "django" if i % 4 < 2 else "isolated", "template",
+                     "real-ids-reseed" if reseed is not None else "real-ids", terms, cases, ids="real", reseed=reseed)
     finally:
         misc.generate = saved
+        random.setstate(state)
 
 
 def fill_nesting_probe(chk):
@@ -986,7 +1034,10 @@ def replay(path):
     for i, (f, m) in enumerate(c["lib"]):
         print("component c%d%s: %s" % (i, " (marked)" if m else "", show(f, n)))
     print("page:", show(c["page"], n), " mode:", c.get("mode"), " api:", c.get("api"))
-    html_out, exc, log, tabs = render_impl(c["lib"], c["page"], c.get("mode", "django"), c.get("api", "template"))
+    reseed = {int(k): v for k, v in c["reseed"].items()} if c.get("reseed") is not None else None
+    if reseed is not None:
+        print("user code calls random.seed(%d) in:" % RESEED_CONST, reseed, "(page rendered twice, second render shown)")
+    html_out, exc, log, tabs = render_impl(c["lib"], c["page"], c.get("mode", "django"), c.get("api", "template"), reseed=reseed)
     print("implementation:", html_out if html_out is not None else exc)
     print("instances (Component.id, root run, re-entrant, pending attr entries):", log)
     if html_out is not None:
